@@ -18,7 +18,11 @@ Definition nt (ip : string) (ones mlen : N) : ipnet := mk_net (hx ip) ones mlen.
 (* what the driver saw at the client side *)
 Record obs := mk_obs {
   o_written : bool; o_same : bool; o_rcode : N; o_ad : bool; o_edes : list N;
-  o_answer : list rr; o_aq : bool; o_next : bool }.
+  o_answer : list rr; o_aq : bool; o_next : bool;
+  (* the question the Queryer received (in-package: the *dns.Msg handed to
+     Queryer.Query; over UDP: the request the sub-pipeline's next handler saw):
+     name, type, class, RD, CD; None = the Queryer was not asked *)
+  o_subq : option subq }.
 
 Inductive case :=
   (* validatePrefix on a ParseCIDR result; when accepted: embedIPv4(p, v4) and extractIPv4(p, that) *)
@@ -77,6 +81,9 @@ Definition rr_eqb (a b : rr) : bool :=
   | _, _ => false
   end.
 Definition rr_in (r : rr) (l : list rr) : bool := existsb (rr_eqb r) l.
+Definition subq_eqb (a b : subq) : bool :=
+  list_eqb (sq_name a) (sq_name b) && (sq_type a =? sq_type b) && (sq_class a =? sq_class b)
+  && Bool.eqb (sq_rd a) (sq_rd b) && Bool.eqb (sq_cd a) (sq_cd b).
 
 (* does the observation equal a model result?  The EDE content of a
    locally built SERVFAIL comes from other packages and is not compared. *)
@@ -116,7 +123,10 @@ Definition check_case (c : case) : bool :=
   | CaseCidr txt res => opt_eqb ipnet_eqb (if existsb (N.eqb 58) txt then parse_cidr6 txt else parse_cidr4 txt) res
   | CaseServe cf q down work al cut wf o =>
       result_matches (serve cur cf q down work al cut) o
-  | CaseWire cf q down s cut wf o => result_matches_wire (serve_wire cf q down s cut) o
+      && opt_eqb subq_eqb (sub_query cur cf q down work al cut) (o_subq o)
+  | CaseWire cf q down s cut wf o =>
+      result_matches_wire (serve_wire cf q down s cut) o
+      && opt_eqb subq_eqb (sub_query cur cf q down false (al_of_script s) cut) (o_subq o)
   end.
 
 (* ---------------- specification oracle ---------------- *)
@@ -213,7 +223,33 @@ Definition spec_serve (cf : config) (q : query) (down : option (msg * N)) (work 
            end)
         (* complete *)
         && implb (gates && spec_eligible_strict c (q_client q) && negb (length cands =? 0)%nat)
-             (o_written o && negb (o_next o) && ((o_rcode o =? 2) || (o_rcode o =? 0)))).
+             (o_written o && negb (o_next o) && ((o_rcode o =? 2) || (o_rcode o =? 0))))
+  (* the secondary query.  Synthesis rests on one; for an AAAA question it asks
+     for the A records of the queried name (letter case aside), class IN, RD
+     set, CD clear (a CD=1 lookup would hide a validation failure of the A leg);
+     for a translated PTR question it asks for the PTR records of the
+     in-addr.arpa name of an IPv4 address whose embedding under a configured
+     prefix is the queried address — the name the reply's CNAME points at *)
+  && implb synth (match o_subq o with Some _ => true | None => false end)
+  && match o_subq o with
+     | None => negb (o_aq o)
+     | Some s =>
+         o_aq o && gates && (sq_class s =? 1) && sq_rd s && negb (sq_cd s)
+         && (if q_type q =? 28 then
+               (sq_type s =? 1) && list_eqb (lower (sq_name s)) (lower (q_name q))
+             else if q_type q =? 12 then
+               (sq_type s =? 12)
+               && (let cands := match parse_ip6_arpa (q_name q) with Some a => ptr_candidates cf a | None => [] end in
+                   match spec_parse_in_addr (sq_name s) with
+                   | Some v4 => existsb (list_eqb v4) cands
+                   | None => false
+                   end)
+               && (match o_answer o with
+                   | RCNAME _ _ t :: _ => list_eqb t (sq_name s)
+                   | _ => o_rcode o =? 2
+                   end)
+             else false)
+     end.
 
 Definition spec_case (c : case) : bool :=
   match c with
